@@ -32,6 +32,7 @@ type c04case struct {
 	on    int
 	kind  int
 	sched bool // explore schedules / map orders on a subset of table pairs
+	twice bool // the join inside a CTE that is read twice (UNION ALL): the join node is built more than once in one New
 }
 
 type c04 struct {
@@ -96,6 +97,11 @@ func (p *c04) Init(tier string) {
 	for on := range p.ons {
 		for k := range p.kinds {
 			p.cases = append(p.cases, c04case{on: on, kind: k})
+		}
+	}
+	for _, on := range []int{0, 2, 5, 8, 11, 13, 20, 27} {
+		for k := range p.kinds {
+			p.cases = append(p.cases, c04case{on: on, kind: k, twice: true})
 		}
 	}
 	// schedule / map-order exploration: every kind x a representative ON set
@@ -194,7 +200,11 @@ func (p *c04) sqlOf(c *c04case) string {
 	default:
 		on = c04OnSQL(e)
 	}
-	return "SELECT * FROM t x " + p.kinds[c.kind].sql + " u y ON " + on
+	base := "SELECT * FROM t x " + p.kinds[c.kind].sql + " u y ON " + on
+	if c.twice {
+		return "WITH c AS (" + base + ") SELECT * FROM c UNION ALL SELECT * FROM c"
+	}
+	return base
 }
 
 func (p *c04) Describe(i int) any {
@@ -253,6 +263,9 @@ func (p *c04) sig(c *c04case, mode string) string {
 		shape = "or"
 	}
 	n := strings.Count(o.name, " AND ") + strings.Count(o.name, " OR ") + 1
+	if c.twice {
+		mode = "cte-read-twice:" + mode
+	}
 	return fmt.Sprintf("C04|%s|on=%s/%d|%s", p.kinds[c.kind].sql, shape, n, mode)
 }
 
@@ -281,6 +294,10 @@ func (p *c04) RunCase(i int) *core.CaseResult {
 			if !ok {
 				r.Unspecified++
 				continue
+			}
+			if c.twice {
+				want = append(append([]string{}, want...), want...)
+				sort.Strings(want)
 			}
 			doc := map[string]any{"t": gq.Clone(l), "u": gq.Clone(rt)}
 			out := gq.Run(doc, sql)
@@ -358,7 +375,7 @@ func (p *c04) runSched(r *core.CaseResult, c *c04case, sql string) {
 
 func (p *c04) Meta() core.Meta {
 	return core.Meta{
-		Rule: "one case per (ON expression: 11 single comparisons in both orientations, 16 AND pairs in both orders, 6 OR pairs, 3-conjunct and repeated-column forms; key columns named differently on the two sides) x (14 join kinds: JOIN/LEFT/RIGHT x auto/HASH_JOIN, STRAIGHT_JOIN, each also PARALLEL), run on every pair of tables of <= 2 (thorough 3) rows over 4 archetypes per side (duplicate keys, two string key columns that collide under textual concatenation) and compared as a multiset with the textbook nested-loop join; plus exploration cases: a representative ON set x all kinds on a subset of table pairs under every Go-map iteration order and (PARALLEL) every thread schedule within the deviation bound. non-trivial = the textbook result is a non-empty proper subset of the cross product / more than one execution explored",
+		Rule: "one case per (ON expression: 11 single comparisons in both orientations, 16 AND pairs in both orders, 6 OR pairs, 3-conjunct and repeated-column forms; key columns named differently on the two sides) x (14 join kinds: JOIN/LEFT/RIGHT x auto/HASH_JOIN, STRAIGHT_JOIN, each also PARALLEL), run on every pair of tables of <= 2 (thorough 3) rows over 4 archetypes per side (duplicate keys, two string key columns that collide under textual concatenation) and compared as a multiset with the textbook nested-loop join; a representative ON set x all kinds also with the join inside a CTE that is read twice (UNION ALL: the result must be the textbook multiset twice); plus exploration cases: a representative ON set x all kinds on a subset of table pairs under every Go-map iteration order and (PARALLEL) every thread schedule within the deviation bound. non-trivial = the textbook result is a non-empty proper subset of the cross product / more than one execution explored",
 		Assumptions: []string{
 			"key columns hold non-NULL values of one scalar kind; ON compares a left column with a right column",
 			"outer rows carry NULL under the other alias; the result is compared as a multiset (order is not fixed by the property)",
